@@ -95,6 +95,24 @@ def enumerate_cases(tier, shard=0, nshards=1):
                    f"contain a read before their last step ({n} sequences before that filter), caching initially on")
 
 
+def _in_thread(fn):
+    import threading
+
+    box = []
+
+    def body():
+        try:
+            fn()
+        except BaseException as e:  # noqa - re-raised in the calling thread
+            box.append(e)
+
+    t = threading.Thread(target=body)
+    t.start()
+    t.join()
+    if box:
+        raise box[0]
+
+
 def run_ops(w, ops, flagged):
     """Execute ops on world w; -> (battery results at query ops + at the end, flag at each point, ops between)."""
     from edgegraph.output import nrpickler
@@ -144,7 +162,12 @@ def run_ops(w, ops, flagged):
                 cur.append("repickle-raised-" + type(e).__name__)
             continue
         try:
-            w.execute(r)
+            if len(cur) % 4 == 3 and name not in ("bulk", "bulk_av"):
+                # this mutation is carried out by ANOTHER thread (joined at once): whoever changes the graph, every
+                # thread's later queries see the change
+                _in_thread(lambda: w.execute(r))
+            else:
+                w.execute(r)
             cur.append(name)
         except RecursionError:
             cur.append(name + "-raised")
